@@ -19,6 +19,7 @@ func BuildMessageByInput(inputStr string) []CommitMessage {
 	currentFileChangeMap = make(map[string]FileChange)
 	commits = nil
 	currentFileChanges = nil
+	currentCommit = CommitMessage{}
 
 	splitStr := strings.Split(inputStr, "\n")
 	for _, str := range splitStr {
